@@ -69,11 +69,12 @@ def cases(tier):
     zones = ZONES_Q if tier == "quick" else ZONES_T
     models = ["full", "split"] if tier == "quick" else list(MODELS)
     bound = 1 if tier == "quick" else 2
-    for model, zone, start, span, usage in itertools.product(models, zones, STARTS, SPANS, [True, False]):
+    east = ["Europe/Berlin"] if tier == "quick" else ["Europe/Berlin", "Asia/Kolkata"]  # east of UTC: undeviated and 1 deviation
+    for model, zone, start, span, usage in itertools.product(models, zones + east, STARTS, SPANS, [True, False]):
         devs = deviations(span)
         if not usage:
             devs = [d for d in devs if d[0] == "T"]
-        for d in range(bound + 1):
+        for d in range((bound if zone not in east else (0 if tier == "quick" else 1)) + 1):
             for combo in itertools.combinations(range(len(devs)), d):
                 if d == 2 and tier == "thorough" and (model not in ("full", "split") or span == 130):
                     continue
